@@ -17,7 +17,15 @@ import (
 	"golang.org/x/tools/go/ssa/ssautil"
 )
 
-const repoDir = "/repo"
+// repoDir is /repo unless VX_REPO points at a scratch worktree (used to try
+// seeded changes without touching /repo).
+var repoDir = func() string {
+	if d := os.Getenv("VX_REPO"); d != "" {
+		return d
+	}
+	return "/repo"
+}()
+
 const repoMod = "github.com/AdguardTeam/AdGuardHome"
 
 type EntrySpec struct {
